@@ -137,8 +137,10 @@ def numDispatcher (m : Nat) (oneHot : Bool) : NumMachine DispState where
     | v :: d :: l :: sel :: rs =>
       if rs.length == m then
         let i : DispIn := { master := { valid := n2b v, data := d, last := n2b l }, sel := sel, readys := rs.map n2b }
-        let o := (dispatcher m oneHot).out s i
-        some ((dispatcher m oneHot).next s i, b2n o.ready :: (o.slaves.map showBeat).flatten)
+        -- one slave and no one_hot: the constructor takes its plain-connect path
+        let mach := if m == 1 && !oneHot then dispatcherConnect else dispatcher m oneHot
+        let o := mach.out s i
+        some (mach.next s i, b2n o.ready :: (o.slaves.map showBeat).flatten)
       else none
     | _ => none
   key s := toString (repr s)
